@@ -17,7 +17,7 @@ func init() {
 			"expected values come from the reference model ref.Expect, never from plenc"},
 		Work: c01Work,
 		Post: func(a *mc.Agg) []string {
-			return needDims(a, "pos:top", "pos:field", "pos:elem", "pos:mapval", "pos:mapkey", "pos:ptrfield", "cfg:default", "cfg:both", "build-order")
+			return needDims(a, "pos:top", "pos:field", "pos:elem", "pos:mapval", "pos:mapkey", "pos:ptrfield", "cfg:default", "cfg:both", "build-order", "pos:intern-history")
 		},
 	})
 }
@@ -36,7 +36,7 @@ func needDims(a *mc.Agg, dims ...string) []string {
 }
 
 func c01Work(c *mc.Ctx) {
-	enumItems(c, append(withRecursive(ref.Universe(c.Tier)), ref.BigMaps(c.Tier)...), c01Case)
+	enumItems(c, append(append(withRecursive(ref.Universe(c.Tier)), ref.BigMaps(c.Tier)...), ref.InternHistory(c.Tier)...), c01Case)
 	// the round trip must not depend on which types the instance built before
 	unit := 1 << 20
 	buildOrder(c, &unit, "C01", bytesProbe)
